@@ -410,9 +410,34 @@ func runC18(h *Harness) {
 				nm := newStoreModel()
 				cnt := tp.Int(6)
 				mi := &crlreader.CRLMetaInfo{Issuer: *storeIssuers[0], ThisUpdate: epoch.UTC()}
-				if tp.Chance(3, 4) {
+				var em *crlreader.ExtendedCRLMetaInfo
+				// half of the replacements are "the list in force fetched again": the same metadata (issuer, dates, number).
+				// What else the new store carries - entries, signer certificate, locations - is still the new store's
+				refetch := model.meta != nil && tp.Chance(1, 2)
+				if refetch {
+					mi, em = model.meta, model.ext
+				}
+				if refetch || tp.Chance(3, 4) {
 					seq = append(seq, func(s crlstore.CRLStore) error { return s.StartUpdateCrl(mi) })
 					nm.meta = mi
+				}
+				if em != nil || tp.Chance(1, 3) {
+					if em == nil {
+						em = &crlreader.ExtendedCRLMetaInfo{CRLNumber: big.NewInt(int64(tp.Int(1000)))}
+					}
+					seq = append(seq, func(s crlstore.CRLStore) error { return s.UpdateExtendedMetaInfo(em) })
+					nm.ext = em
+				}
+				if tp.Chance(1, 2) {
+					ca := NewCA(nil, CAOpts{CN: fmt.Sprintf("Replacement Signer %d", tp.Int(3))})
+					ce := &core.CertificateChainEntry{RawCertificate: ca.Cert.Raw, Certificate: ca.Cert}
+					seq = append(seq, func(s crlstore.CRLStore) error { return s.UpdateSignatureCertificate(ce) })
+					nm.signer = ca.Cert.Raw
+				}
+				if tp.Chance(1, 3) {
+					l := &core.CRLLocations{CRLUrl: "http://crl.sim/replacement.crl", CRLDistributionPoints: []string{}}
+					seq = append(seq, func(s crlstore.CRLStore) error { return s.UpdateCRLLocations(l) })
+					nm.locs = l
 				}
 				for j := 0; j < cnt; j++ {
 					iss := storeIssuers[tp.Int(len(storeIssuers))]
@@ -439,7 +464,7 @@ func runC18(h *Harness) {
 					break
 				}
 				h.R.NonTrivial = true
-				opsLog = append(opsLog, fmt.Sprintf("replace(%d entries)", cnt))
+				opsLog = append(opsLog, fmt.Sprintf("replace(%d entries, refetch=%v)", cnt, refetch))
 				e1 = ms.Update(m2)
 				e2 = ds.Update(d2)
 				if e1 == nil {
